@@ -146,6 +146,7 @@ func (a Authenticator) Handle(response tq.Response, request tq.Request) {
 					tq.SetAuthenReplyServerMsg("login failure"),
 				),
 			)
+			return
 		}
 		expectedHash = secret
 	}
